@@ -357,9 +357,10 @@ def make_def(gd):
     import numpy as np
     from cayleypy import CayleyGraphDef, MatrixGenerator
     if gd["kind"] == "perm":
-        return CayleyGraphDef.create([list(g) for g in gd["gens"]], central_state=list(gd["central"]))
+        # zoo graphs are NAMED, and graphs of one size share a name (as a library graph and its cosets do): nothing may be keyed by the name alone
+        return CayleyGraphDef.create([list(g) for g in gd["gens"]], central_state=list(gd["central"]), name=f"zoo-{len(gd['central'])}")
     gens = [MatrixGenerator.create(np.array(M, dtype=np.int64), modulo=gd["modulo"]) for M in gd["mats"]]
-    return CayleyGraphDef.for_matrix_group(generators=gens, central_state=list(gd["central"]))
+    return CayleyGraphDef.for_matrix_group(generators=gens, central_state=list(gd["central"]), name=f"zoo-matrix-{gd['n']}x{gd['m']}")
 
 
 def make_graph(gd, cfgd):
